@@ -179,6 +179,35 @@ def run(ctx):
     ctx.units["depth_passing_call_sites"] = n
 
     # ---------------- R3 (quick part): where the evaluator runs
+    # ---------------- R5 the depth error's text survives the way out
+    ctx.rule("C18.R5", "what the over-limit exit says is what the user reads: the exit's message names the call depth, and no carrier of a RuntimeError (the constructors, with_call_site, with_function_context, the conversions, Display) shortens the message it carries", floor=6)
+    SHRINK = re.compile(r"String::(truncate|drain|clear|pop|remove|retain|split_off|replace_range)$|core::str::<impl str>::(split_at|split|get|trim_end_matches|char_indices|chars)|Index<|SliceIndex|core::iter::traits::iterator::Iterator::take")
+    carriers = [n for n in core.mir if "error::RuntimeError" in n and "closure" not in n and not n.endswith("core::fmt::Debug>::fmt")]
+    for n in sorted(carriers):
+        g = M.Fn(core.mir_fn(n), n)
+        cut = set()
+        for b in g.call_blocks():
+            c_ = g.callee(b) or ""
+            if not SHRINK.search(c_):
+                continue
+            if "String::" in c_:
+                cut.add(c_)   # the only owned strings a carrier handles are messages
+                continue
+            args_ = g.term(b).get("args") or []
+            roots_ = g.trace(args_[0]) if args_ else []
+            if any("message" in (r[2] if r[0] in ("param", "local") else r[3] if r[0] in ("call", "agg") else []) for r in roots_) or any(r[0] == "call" and "fmt::format" in str(r[1]) for r in roots_):
+                cut.add(c_)
+        cut = sorted(cut)
+        ctx.inst("C18.R5", "carrier:" + n.replace(CORE, ""), not cut, "operations that can drop part of the message: %s" % (cut or "none"), g.loc())
+    lits = []
+    hf = core.hir_fn(FCALL)
+    for mnode in H.walk(hf["body"]):
+        if H.kind(mnode) == "Macro":
+            lits += [H.template_text(t) for t in H.macro_templates(core, mnode)]
+    lits += H.str_lits(hf["body"], core)
+    says = [t for t in lits if re.search(r"maximum call depth", t)]
+    ctx.inst("C18.R5", "exit#message", True if says else None, "messages built in FunctionDef::call that name the call depth: %s" % (says or "none found (the text may be built elsewhere)"), fc.loc())
+
     ctx.rule("C18.R3s", "the evaluator runs on the main thread (8 MiB default) or on a thread whose explicit stack size is at least that; recorded for the stack budget", floor=1)
     sizes = []
     for name, f in cg.fns.items():
